@@ -58,6 +58,17 @@ func newSignalHandler() *signalHandler {
 func (o *signalHandler) addSignalUser(userID uint64, signalID, messageID uint32,
 	from Channel) error {
 
+	// a user id is registered once: check before creating the
+	// handler which watches the connection of the new user.
+	o.signalsMutex.Lock()
+	for _, user := range o.signals {
+		if user.userID == userID {
+			o.signalsMutex.Unlock()
+			return fmt.Errorf("user %d already exists", userID)
+		}
+	}
+	o.signalsMutex.Unlock()
+
 	newUser := signalUser{
 		signalID:  signalID,
 		messageID: messageID,
@@ -78,14 +89,6 @@ func (o *signalHandler) addSignalUser(userID uint64, signalID, messageID uint32,
 	newUser.contextID = e.MakeHandler(f, q, cl)
 
 	o.signalsMutex.Lock()
-
-	for _, user := range o.signals {
-		if user.userID == userID {
-			o.signalsMutex.Unlock()
-			user.context.EndPoint().RemoveHandler(user.contextID)
-			return fmt.Errorf("user %d already exists", userID)
-		}
-	}
 	o.signals = append(o.signals, newUser)
 	o.signalsMutex.Unlock()
 	return nil
